@@ -102,7 +102,7 @@ CHECKS = {
     "C17": {
         "level": "exploration",
         "tests": [{"name": "TestC17Small", "quick": 1200, "thorough": 230400}, {"name": "TestC17Wide", "quick": 60, "thorough": 3840, "min_per_shard": 8},
-                  {"name": "TestC17ManyFields", "quick": 200, "thorough": 19200, "min_per_shard": 20}, {"name": "TestC17Mid", "quick": 600, "thorough": 115200}],
+                  {"name": "TestC17ManyFields", "quick": 200, "thorough": 19200, "min_per_shard": 20}, {"name": "TestC17Mid", "quick": 600, "thorough": 115200}, {"name": "TestC17Boundary", "quick": 100, "thorough": 9600, "min_per_shard": 20}],
         "assumptions": [COMMON_ASSUMPTIONS[0], COMMON_ASSUMPTIONS[2], "metamorphic: no reference model is involved, only observational equality of two merge results"],
     },
     "C18": {
